@@ -58,6 +58,9 @@ pub struct Static {
     /// feature index in the plan -> (rules, scenarios (expanded), own steps (expanded))
     /// (by index, not by name: features may share a name)
     pub feature_counts: BTreeMap<usize, (usize, usize, usize)>,
+    /// feature index in the plan -> names of the scenarios it hands to the runner (twin features
+    /// share their names: `scenarios` above then holds one entry for both)
+    pub feature_scenarios: BTreeMap<usize, Vec<String>>,
 }
 
 fn parse_full_retry_tag(tag: &str) -> Option<u64> {
@@ -73,7 +76,9 @@ impl Static {
     pub fn new(plan: &Plan) -> Self {
         let mut scenarios = BTreeMap::new();
         let mut feature_counts = BTreeMap::new();
+        let mut feature_scenarios: BTreeMap<usize, Vec<String>> = BTreeMap::new();
         for (fi, f) in plan.features.iter().enumerate() {
+            feature_scenarios.insert(fi, Vec::new());
             let mut n_sc = 0;
             let mut n_steps = 0;
             let mut add = |s: &ScenarioSpec, rule: Option<&crate::plan::RuleSpec>, f: &FeatureSpec| {
@@ -121,6 +126,7 @@ impl Static {
                     };
                     n_sc += 1;
                     n_steps += s.steps.len();
+                    feature_scenarios.entry(fi).or_default().push(name.clone());
                     scenarios.insert(
                         name.clone(),
                         ScInfo {
@@ -152,7 +158,7 @@ impl Static {
             }
             feature_counts.insert(fi, (f.rules.len(), n_sc, n_steps));
         }
-        Self { scenarios, feature_counts }
+        Self { scenarios, feature_counts, feature_scenarios }
     }
 }
 
